@@ -171,6 +171,7 @@ type Obligation struct {
 }
 
 type VC struct {
+	rawSeen map[string]bool
 	Fn      string
 	items   []Item
 	nfresh  map[string]int
@@ -461,6 +462,7 @@ const preambleFixed = `(set-option :produce-models true)
 (assert (= (strlen strempty) #x0000000000000000))
 (define-fun str_ok ((s Str)) Bool (and (bvsle #x0000000000000000 (strlen s)) (bvsle (strlen s) ` + maxLenLit + `)))
 (define-fun ref_ok ((r Int) (ac Int)) Bool (and (<= 0 r) (< r ac)))
+(define-fun time_ok ((t (_ BitVec 128))) Bool (and (bvsle #xfffffff0000000000000000000000000 t) (bvsle t #x00000010000000000000000000000000)))
 (define-fun slice_ok ((s Slice) (ac Int)) Bool (and (<= 0 (s.ref s)) (< (s.ref s) ac)
   (bvsle #x0000000000000000 (s.off s)) (bvsle (s.off s) ` + maxLenLit + `)
   (bvsle #x0000000000000000 (s.len s)) (bvsle (s.len s) (s.cap s)) (bvsle (s.cap s) ` + maxLenLit + `)
@@ -598,7 +600,7 @@ func (o *Obligation) SMT(withModel bool) string {
 			if !keep[i] || it.Assert != nil || it.Raw != "" {
 				continue
 			}
-			if strings.HasPrefix(it.Name, "esk!") || strings.HasPrefix(it.Name, "i!") || strings.HasPrefix(it.Name, "rangeindex!") || strings.HasPrefix(it.Name, "j!") || strings.HasPrefix(it.Name, "idx!") {
+			if strings.HasPrefix(it.Name, "esk!") || strings.HasPrefix(it.Name, "i!") || strings.HasPrefix(it.Name, "rangeindex!") || strings.HasPrefix(it.Name, "j!") || strings.HasPrefix(it.Name, "idx!") || strings.HasPrefix(it.Name, "key!") {
 				wconsts = append(wconsts, skc{it.Name, it.Sort})
 			}
 		}
@@ -670,6 +672,29 @@ func (o *Obligation) SMT(withModel bool) string {
 			for f.Op == "=>" && len(f.Args) == 2 {
 				pre = append(pre, f.Args[0])
 				f = f.Args[1]
+			}
+			if f.Op == "forall" && len(f.QVars) == 2 {
+				k2 := 0
+				all := append(append([]skc{}, targets...), wconsts...)
+				for ai, a := range all {
+					for bi, b := range all {
+						if a.sort != f.QVars[0][1] || b.sort != f.QVars[1][1] || a.name == b.name || k2 > 24 {
+							continue
+						}
+						if ai >= len(targets) && bi >= len(targets) {
+							continue // at least one of the goal's own constants
+						}
+						inst := substT(substT(f.Args[0], f.QVars[0][0], Sym(a.name, a.sort)), f.QVars[1][0], Sym(b.name, b.sort))
+						inst = skolemPos(inst, mk(&sink, "isk"))
+						for k := len(pre) - 1; k >= 0; k-- {
+							inst = Implies(pre[k], inst)
+						}
+						body.WriteString("(assert " + inst.String() + ")\n")
+						k2++
+						n++
+					}
+				}
+				continue
 			}
 			if f.Op != "forall" || len(f.QVars) != 1 {
 				continue
